@@ -111,6 +111,9 @@ CALIBRATION = [
     "longer than the axis, integer 'mean'/'linear_ramp' pads, pads of non-finite data, datetime/timedelta inputs.",
     "block_info-free: the 0-d block view finding is reported once per case and does not stop the remaining checks of the case.",
     "programs are cut before a stage with more than MAX_BLOCKS blocks (run time bound of the generator).",
+    "thorough run: float32 * 0-d float64 dask operand (computed in float32: C19), unique with NaN in several chunks (C27), setitem "
+    "through negative-step slices (C21 #2) moved out of the generator; a 0-d block that is a bare Python scalar (1j / x) is judged "
+    "by the dtype NumPy gives it.",
 ]
 
 FIXED = [
@@ -243,7 +246,8 @@ def stage_mismatch(d, whole, ctx):
             decl = tuple(d.chunks[a][i] for a, i in enumerate(idx))
             if len(bshape) != len(decl) or any((not _isnan(c)) and c != b for c, b in zip(decl, bshape)):
                 return ("block-shape", "block %s (via %s) has shape %s, chunks declare %s" % (idx, how, bshape, decl))
-            bdt = getattr(blk, "dtype", None)
+            # (a block may be a bare Python scalar for 0-d arrays: judged by the dtype NumPy gives it)
+            bdt = getattr(blk, "dtype", None) if hasattr(blk, "dtype") else np.asarray(blk).dtype
             if bdt != d.dtype:
                 return ("block-dtype", "block %s (via %s) has dtype %s, lazy dtype %s" % (idx, how, bdt, d.dtype))
         if whole is None:
